@@ -25,6 +25,7 @@ import warnings
 import numpy as np
 
 ENABLED = False
+GROUPED = False      # additionally leave the frame grouped (`group_by` marks the receiver and nothing ever resets it)
 COUNT = 0
 
 
@@ -135,6 +136,12 @@ def frame_through_history(data, skip=()):
         np.copyto(data[name].view(np.ndarray), s)
     global COUNT
     COUNT += 1
+    if GROUPED:
+        # the usual `data.group_by(c).aggregate(...)` leaves `data` grouped for the rest of its life; every
+        # operation that is not documented as group-wise must ignore that
+        names = [c for c in data.colnames if c not in skip]
+        if names:
+            data.group_by(names[-1])
     return data
 
 
